@@ -35,9 +35,11 @@
       the map in an unspecified order: `setmany_order_irrelevant` shows that the order does not
       matter, neither for the result nor for the keyspace the tables stand for afterwards.
 
-  Out of scope (`Covered op = false`, `uncovered_are_skip`): `IncrFloat` and `Scan`, for which
-  `Spec.step` answers `skip` (float arithmetic is outside the numeric domain of model and
-  specification; scans are C16's business).
+  Float increment is covered on the numeric domain of `valueFloat` / `formatFloatDec` (plain decimal
+  texts denoting dyadic rationals, sums with at most 15 significant digits); outside it model and
+  specification both answer "not decided" and change nothing, so the theorem holds there trivially.
+  Out of scope (`Covered op = false`, `uncovered_are_skip`): `Scan`, for which `Spec.step` answers
+  `skip` (scans are C16's business).
 
   `hash_seq_refines` lifts the single step to any sequence of covered hash operations at
   non-decreasing clock values. It rests on `hash_preserves_hwf` (the operations keep `HWF`, the
@@ -65,10 +67,10 @@ def isHashOp : Op → Bool
   | .hashSetNotExists .. | .hashValues _ => true
   | _ => false
 
-/-- the hash operations the theorem speaks about: all but `IncrFloat` and `Scan` -/
+/-- the hash operations the theorem speaks about: all but `Scan` -/
 def Covered : Op → Bool
   | .hashDelete .. | .hashExists .. | .hashFields _ | .hashGet .. | .hashGetMany .. | .hashIncr ..
-  | .hashItems _ | .hashLen _ | .hashSet .. | .hashSetMany .. | .hashSetNotExists ..
+  | .hashIncrFloat .. | .hashItems _ | .hashLen _ | .hashSet .. | .hashSetMany .. | .hashSetNotExists ..
   | .hashValues _ => true
   | _ => false
 
@@ -155,6 +157,9 @@ theorem hash_refines_hwf : ∀ (op : Op) (now : Int) (db : DB),
     refine hashIncr_refines hw hns f d harg ?_
     intro b n hb hn
     simpa [Overflow, hb, hn] using hov
+  case hashIncrFloat k f d =>
+    have hns : staleKey db now k = false := by simpa [Stale, writeKeys] using hst
+    exact hashIncrFloat_refines hw hns f d
   case hashItems k => exact hashItems_refines hw.wf now k
   case hashLen k => exact hashLen_refines hw now k
   case hashSet k f v =>
@@ -200,6 +205,7 @@ theorem hash_preserves_hwf : ∀ (op : Op) (now : Int) (db : DB), IsFamOp op →
     unfold Model.hashGet; split <;> exact hw
   case hashGetMany k fs => exact hw
   case hashIncr k f d => exact update_hwf hw (hashIncr_hwf hw k f d now)
+  case hashIncrFloat k f d => exact update_hwf hw (hashIncrFloat_hwf hw k f d now)
   case hashItems k => exact hw
   case hashLen k =>
     show HWF (Model.hashLen db k now).db
